@@ -91,7 +91,7 @@ class FactorColumnOp(BaseOp):
 
         df_new = df.copy()
         for index, factor_value in enumerate(factor_values):
-            factor_index = df_new[self.column_name].map(
+            factor_index = df_new[self.column_name].notna() & df_new[self.column_name].map(
                 str).isin([str(factor_value)])
             column = factor_names[index]
             df_new[column] = factor_index.astype(int)
